@@ -101,28 +101,72 @@ impl Mul<i64> for Duration {
 
 impl Mul<f64> for Duration {
     type Output = Duration;
-    fn mul(self, q: f64) -> Self::Output {
-        // Make sure that we don't trim the number by finding its precision
-        let mut p: i32 = 0;
-        let mut new_val = q;
-        let ten: f64 = 10.0;
 
-        loop {
-            if (new_val.floor() - new_val).abs() < f64::EPSILON {
-                // Yay, we've found the precision of this number
-                break;
-            }
-            // Multiply by the precision
-            // https://play.rust-lang.org/?version=stable&mode=debug&edition=2018&gist=b760579f103b7192c20413ebbe167b90
-            p += 1;
-            new_val = q * ten.powi(p);
+    /// Multiplies this duration by a floating point value: the exact product of the nanosecond count
+    /// and the float, truncated toward zero to a whole nanosecond, saturating at the bounds.
+    /// A NaN factor returns a zero duration.
+    fn mul(self, q: f64) -> Self::Output {
+        let total = i128::from(self.centuries) * i128::from(NANOSECONDS_PER_CENTURY)
+            + i128::from(self.nanoseconds);
+        if total == 0 || q == 0.0 || q.is_nan() {
+            return Duration::ZERO;
+        }
+        let saturated = if (total < 0) != q.is_sign_negative() {
+            Duration::MIN
+        } else {
+            Duration::MAX
+        };
+        if q.is_infinite() {
+            return saturated;
         }
 
-        Duration::from_total_nanoseconds(
-            self.total_nanoseconds()
-                .saturating_mul(new_val as i128)
-                .saturating_div(10_i128.pow(p.try_into().unwrap())),
-        )
+        // A finite float is an integer significand times a power of two: |q| = m * 2^e.
+        let bits = q.to_bits();
+        let biased_exponent = ((bits >> 52) & 0x7ff) as i32;
+        let fraction = bits & ((1_u64 << 52) - 1);
+        let (m, e) = if biased_exponent == 0 {
+            (u128::from(fraction), -1074)
+        } else {
+            (u128::from(fraction | (1_u64 << 52)), biased_exponent - 1075)
+        };
+
+        // |total| < 2^77 and m < 2^53: the product may need 130 bits, so split |total| in two halves,
+        // product = hi * 2^64 + lo. Anything that does not fit 127 bits is far beyond Duration::MAX.
+        let magnitude = total.unsigned_abs();
+        let hi = (magnitude >> 64) * m;
+        let lo = (magnitude & u128::from(u64::MAX)) * m;
+        let nanos: Option<u128> = if e >= 0 {
+            match magnitude.checked_mul(m) {
+                Some(p) if p.leading_zeros() > e as u32 => Some(p << e),
+                _ => None,
+            }
+        } else {
+            let shift = (-e) as u32;
+            if shift <= 64 {
+                // hi * 2^64 is a multiple of 2^shift, so both terms can be shifted separately.
+                if hi.leading_zeros() < 64 - shift {
+                    None
+                } else {
+                    (hi << (64 - shift)).checked_add(lo >> shift)
+                }
+            } else if shift - 64 < 128 {
+                Some((hi + (lo >> 64)) >> (shift - 64))
+            } else {
+                Some(0)
+            }
+        };
+
+        match nanos {
+            Some(ns) if ns <= i128::MAX as u128 => {
+                let ns = ns as i128;
+                Duration::from_total_nanoseconds(if (total < 0) != q.is_sign_negative() {
+                    -ns
+                } else {
+                    ns
+                })
+            }
+            _ => saturated,
+        }
     }
 }
 
